@@ -557,6 +557,31 @@ pub fn abi_record(args: &Args) -> i32 {
                         rep.push(json!({"call":"Compress","cap":cap,"status":st,"unwound":unwound,"rs_set": rs != 0xDEAD_BEEF_DEAD_BEEF,
                             "rs": if rs == 0xDEAD_BEEF_DEAD_BEEF { 0 } else { rs.min(1 << 30) },"guards":g.guards_intact(),"valid":valid,"after":"damaged and refused calls"}));
                     }
+                    // the caller's input buffer reused for another file of the same length, right after a
+                    // refused call: the result belongs to the bytes that are in the buffer now
+                    if f.len() >= 2 {
+                        let mut buf = f.clone();
+                        let mut g0 = Guarded::new(1);
+                        let mut rs0: u64 = 0;
+                        let p0 = g0.ptr();
+                        let _ = guarded(|| unsafe { WrapperCompressZip(buf.as_ptr(), buf.len() as u64, p0, 1, &mut rs0 as *mut u64) });
+                        let n = buf.len();
+                        buf[n - 1] ^= 0xff;
+                        buf[n / 2] ^= 0x55;
+                        let cap = bound + 1000;
+                        let mut g = Guarded::new(cap);
+                        let mut rs: u64 = 0xDEAD_BEEF_DEAD_BEEF;
+                        let p = g.ptr();
+                        let status = guarded(|| unsafe { WrapperCompressZip(buf.as_ptr(), buf.len() as u64, p, cap as u64, &mut rs as *mut u64) });
+                        let (st, unwound) = match status { Ok(s) => (s, false), Err(_) => (-99, true) };
+                        let valid = st == 0 && (rs as usize) <= cap && matches!(guarded(|| decompress_zstd(g.data(rs as usize), 1 << 27)), Ok(Ok(ref x)) if *x == buf);
+                        // (the changed file may expand to something a little larger than `bound` was computed for:
+                        // the capacity is generous, and only a wrong answer is held against the call)
+                        if st == 0 || unwound {
+                            rep.push(json!({"call":"Compress","cap":cap,"status":st,"unwound":unwound,"rs_set": rs != 0xDEAD_BEEF_DEAD_BEEF,
+                                "rs": if rs == 0xDEAD_BEEF_DEAD_BEEF { 0 } else { rs.min(1 << 30) },"guards":g.guards_intact(),"valid":valid,"after":"a refused call on the same buffer, other contents"}));
+                        }
+                    }
                     // the frame just made, into a buffer one byte short, then into one that fits exactly
                     for cap in [need2.saturating_sub(1), need2] {
                         let mut g = Guarded::new(cap);
@@ -691,6 +716,14 @@ pub fn conc_record(args: &Args) -> i32 {
         f.extend_from_slice(&crate::gen::junk(&mut rng, 100));
         files.push(f);
     }
+    // twins: the first files again with two bytes changed (same length, other contents)
+    let ntwins = files.len().min(3);
+    for k in 0..ntwins {
+        let mut t = files[k].clone();
+        if t.len() >= 2 { let n = t.len(); t[n - 1] ^= 0xff; t[n / 2] ^= 0x55; }
+        files.push(t);
+    }
+    let twin_of = |k: usize| files.len() - ntwins + k;
     let mut streams: Vec<Vec<u8>> = big.iter().map(|b| b.stream.clone()).collect();
     {
         let mut text: Vec<u8> = Vec::new();
@@ -703,7 +736,22 @@ pub fn conc_record(args: &Args) -> i32 {
         }
     }
     let nin = |f: usize| if f == 2 || f == 3 { streams.len() } else { files.len() };
-    const NFN: usize = 6;
+    const NFN: usize = 8;
+    // the C wrappers, with the caller's input always in the same per-thread buffer (a caller that
+    // reuses one I/O buffer): 6 = compress, 7 = compress into a buffer that is far too small
+    thread_local! { static INBUF: std::cell::RefCell<Vec<u8>> = std::cell::RefCell::new(Vec::with_capacity(16 << 20)); }
+    let wrapper = |x: usize, refuse: bool| -> u64 {
+        INBUF.with(|b| {
+            let mut b = b.borrow_mut();
+            b.clear();
+            b.extend_from_slice(&files[x]);
+            let cap = if refuse { 1 } else { zstd::zstd_safe::compress_bound(files[x].len() + 4096) + 4096 };
+            let mut outb = vec![0u8; cap];
+            let mut rs: u64 = 0;
+            let st = unsafe { WrapperCompressZip(b.as_ptr(), b.len() as u64, outb.as_mut_ptr(), cap as u64, &mut rs as *mut u64) };
+            if st == 0 && (rs as usize) <= cap { fnv(&outb[..rs as usize]) } else { (st as i64 as u64) ^ 0x5151 }
+        })
+    };
     // function f on input x -> result hash
     let call = |f: usize, x: usize| -> u64 {
         let r = guarded(|| match f {
@@ -722,10 +770,12 @@ pub fn conc_record(args: &Args) -> i32 {
                 Err(_) => 5,
             },
             4 => compress_zstd(&files[x], 0).map(|v| fnv(&v)).unwrap_or(7),
-            _ => match compress_zstd(&files[x], 0) {
+            5 => match compress_zstd(&files[x], 0) {
                 Ok(z) => decompress_zstd(&z, 64 << 20).map(|v| fnv(&v)).unwrap_or(8),
                 Err(_) => 9,
             },
+            6 => wrapper(x, false),
+            _ => wrapper(x, true),
         });
         r.unwrap_or(6)
     };
@@ -755,6 +805,11 @@ pub fn conc_record(args: &Args) -> i32 {
             for i in (1..o.len()).rev() { let j = rng.below(i as u64 + 1) as usize; o.swap(i, j); }
             let mut twice = o.clone();
             twice.extend_from_slice(&o);
+            // a refused wrapper call, then the twin (same length, same buffer, other contents)
+            for k in 0..ntwins {
+                twice.push((7, k)); twice.push((6, twin_of(k)));
+                twice.push((7, twin_of(k))); twice.push((6, k));
+            }
             twice
         }).collect();
         let hlog: Mutex<Vec<Value>> = Mutex::new(Vec::new());
@@ -802,6 +857,39 @@ pub fn conc_record(args: &Args) -> i32 {
             }).unwrap_or(6);
             writeln!(out, "{}", event("End", json!({"t":0,"fn":2,"x":x,"round":-3,"rep":want,"hash":format!("{:016x}", h)}))).unwrap();
         }
+    }
+    // the arguments are the bytes, not the machine either: a large file with small streams whose
+    // signatures sit exactly where a division of the file into 2..64 equal parts would cut it,
+    // expanded with all processors available and again on a thread pinned to one processor
+    {
+        let l: usize = 4 << 20;
+        let mut f = crate::gen::junk(&mut rng, l);
+        let zeros = vec![0u8; 1500];
+        let mini = crate::gen::wrap_zlib(&crate::gen::zlib_raw(&zeros, 9, 0, 15, 8), &zeros, 2);
+        let mut used: Vec<usize> = Vec::new();
+        for parts in 2..=64usize {
+            for cut in [(l + parts - 1) / parts, l / parts] {
+                for k in 1..parts.min(4) {
+                    let at = cut * k;
+                    if at < 1 || at + mini.len() + 8 >= l { continue; }
+                    let at = at - 1; // the first byte of the signature is the last byte before the cut
+                    if used.iter().any(|&u| (u as i64 - at as i64).abs() < (mini.len() + 16) as i64) { continue; }
+                    f[at..at + mini.len()].copy_from_slice(&mini);
+                    used.push(at);
+                }
+            }
+        }
+        let h_all = guarded(|| expand_zlib_chunks(&f, 0).map(|v| fnv(&v)).unwrap_or(1)).unwrap_or(6);
+        writeln!(out, "{}", event("Seq", json!({"fn":0,"x":9000,"hash":format!("{:016x}", h_all),"streams":used.len()}))).unwrap();
+        let h_one = std::thread::scope(|s| s.spawn(|| {
+            unsafe {
+                let mut set: libc::cpu_set_t = std::mem::zeroed();
+                libc::CPU_SET(0, &mut set);
+                libc::sched_setaffinity(0, std::mem::size_of::<libc::cpu_set_t>(), &set);
+            }
+            guarded(|| expand_zlib_chunks(&f, 0).map(|v| fnv(&v)).unwrap_or(1)).unwrap_or(6)
+        }).join().unwrap_or(6));
+        writeln!(out, "{}", event("End", json!({"t":0,"fn":0,"x":9000,"round":-5,"rep":0,"hash":format!("{:016x}", h_one)}))).unwrap();
     }
     // repeatability first: many small streams with unusual compressor settings (where the
     // estimator's candidates tie), analysed repeatedly; no threads needed for this part
